@@ -585,6 +585,28 @@ impl<'a> VisitMut for Rewriter<'a> {
                 _ => {}
             }
         }
+        // R10 (Verus only): `&mut v[a..]` -> `slice_tail_mut(&mut v, a)`: std's IndexMut<RangeFrom<usize>> is generic over SliceIndex and
+        // cannot be given an assume_specification; the shim carries its documented semantics (requires a <= len; the parent is the
+        // untouched prefix followed by the returned slice)
+        if self.rule("R10") {
+            if let Expr::Reference(r) = e {
+                if r.mutability.is_some() {
+                    if let Expr::Index(ix) = &*r.expr {
+                        if let Expr::Range(rg) = &*ix.index {
+                            if rg.end.is_none() && matches!(rg.limits, RangeLimits::HalfOpen(_)) {
+                                if let Some(start) = &rg.start {
+                                    let base = (*ix.expr).clone();
+                                    let st = (**start).clone();
+                                    let ne: Expr = parse_quote!(slice_tail_mut(&mut #base, #st));
+                                    *e = ne;
+                                    self.bump("R10");
+                                }
+                            }
+                        }
+                    }
+                }
+            }
+        }
         // R3 else-less let-chains: `if a && let P = e { B }` -> `if a { if let P = e { B } }`
         if self.rule("R3") {
             if let Expr::If(ei) = e {
